@@ -118,6 +118,38 @@ def main():
                 if got != want:
                     mismatch("split", "morpheme %d split(%s): python %r, library %r" % (i, sm, got, want), {"text": text, "mode": mode})
 
+    # ---- a tokenizer created with a field request, analysed with a per-call mode override: same boundaries as a
+    # tokenizer created in that mode with the same field request (same fields, so path-rewrite plugins see the same data)
+    out["override_checks"] = 0
+    rng0 = random.Random(seed + 17)
+    field_sets = [set(), {"pos"}, {"surface"}, {"pos", "normalized_form"}, {"surface", "pos", "normalized_form", "dictionary_form"}, {"reading_form", "synonym_group_id"}]
+    for case in cases:
+        if case.get("kind") == "lookup" or case["expected"] is None or not case["text"]:
+            continue
+        fs = set(rng0.choice(field_sets))
+        if cfg.get("pathRewritePlugin"):
+            # boundaries are only determined when the path-rewrite plugins get the fields they read
+            fs |= {"surface", "pos", "normalized_form"}
+        base_m = rng0.choice("ABC")
+        over_m = rng0.choice("ABC")
+        try:
+            first = d.create(mode=modes[base_m], fields=set(fs))
+            a = [(m.begin(), m.end(), m.word_id()) for m in first.tokenize(case["text"], mode=modes[over_m])]
+            b = [(m.begin(), m.end(), m.word_id()) for m in d.create(mode=modes[over_m], fields=set(fs)).tokenize(case["text"])]
+            a2 = [(m.begin(), m.end(), m.word_id()) for m in first.tokenize(case["text"])]
+            b2 = [(m.begin(), m.end(), m.word_id()) for m in d.create(mode=modes[base_m], fields=set(fs)).tokenize(case["text"])]
+        except (KeyboardInterrupt, SystemExit):
+            raise
+        except BaseException:  # noqa
+            out["python_exceptions"] += 1
+            continue
+        out["override_checks"] += 1
+        if a != b:
+            mismatch("mode_override", "create(mode=%s, fields=%r).tokenize(text, mode=%s) gives %r, a tokenizer created in mode %s with the same fields gives %r" % (base_m, sorted(fs), over_m, a[:8], over_m, b[:8]),
+                     {"text": case["text"]})
+        elif a2 != b2:
+            mismatch("mode_override", "after a call with mode=%s the tokenizer created with mode=%s, fields=%r gives %r, a new one %r" % (over_m, base_m, sorted(fs), a2[:8], b2[:8]), {"text": case["text"]})
+
     # ---- dictionary building through the Python entry points: same bytes as the library's own compiler
     out["py_builds"] = 0
     bpath = os.path.join(sdir, "build.json")
@@ -198,6 +230,9 @@ def main():
                         mismatch("history", "tokenize('') into a reused list leaves %d morphemes in it" % len(reuse), {})
                 else:
                     d.lookup(rng.choice(texts)[:3], out=reuse)
+                    r0 = d.lookup("", out=reuse)
+                    if len(r0) != 0 or len(reuse) != 0:
+                        mismatch("history", "lookup('') into a reused list leaves %d morphemes in it" % len(reuse), {})
             except (KeyboardInterrupt, SystemExit):
                 raise
             except BaseException:  # noqa  (PyO3's PanicException derives from BaseException)
@@ -227,11 +262,18 @@ def main():
 
         def work(tid):
             r = random.Random(seed * 1000 + tid)
+            # every thread has tokenizers of its own, created with the same arguments as those of the other threads
             mine = {mk: d.create(mode=modes[mk]) for mk in "AC"}
             for _ in range(300):
                 t = r.choice(texts)
                 mk = r.choice("AC")
-                got = [(m.surface(), m.word_id(), m.begin(), m.end(), m.normalized_form()) for m in mine[mk].tokenize(t)]
+                try:
+                    got = [(m.surface(), m.word_id(), m.begin(), m.end(), m.normalized_form()) for m in mine[mk].tokenize(t)]
+                except (KeyboardInterrupt, SystemExit):
+                    raise
+                except BaseException as ex:  # noqa
+                    errors.append("thread %d: tokenize(%r) on the thread's own tokenizer raised %r (the single-threaded run succeeds)" % (tid, t, ex))
+                    return
                 if got != seq[(t, mk)]:
                     errors.append("thread %d: %r mode %s: %r != %r" % (tid, t, mk, got[:5], seq[(t, mk)][:5]))
                     return
